@@ -4,7 +4,8 @@
    and hence so are the model's expectations for the integrands x, Ax+a, xx', (Ax+a)'(Bx+b), (Ax+a)(Bx+b)' of a density object.
    Ingredients: first and second moments by elimination of one variable at a time (trunc/GaussMom.v gauss_nd_lin, gauss_nd_lin2),
    the elimination recursions equal l'L^-1 nu and l'L^-1 k over every real field (proofs/GImomalg.v, axiom-free), glue
-   proofs/GIreal3.v.  NOT covered: the third and fourth order integrands (their Wick expectations remain definitions). *)
+   proofs/GIreal3.v.  Third and fourth order (end of this file): trunc/GaussMom4.v, proofs/GIreal5.v -- with them EVERY integrand of the
+   documented table is a genuine integral. *)
 From Coq Require Import Reals Lra Lia.
 From GT Require Import GaussND GaussMom.
 From mathcomp Require Import all_ssreflect all_fingroup all_algebra.
@@ -59,3 +60,69 @@ Theorem C03_quadratic_inner_is_the_integral (p : measure LR) r K (A : matRF) (a 
           (E_quadratic_inner (uD p) (getmu p r) (getS p r) K A a B b).
 Proof. by move=> H1 H2 H3; exact: E_quadratic_inner_is_integral. Qed.
 Print Assumptions C03_quadratic_inner_is_the_integral.
+
+(* ---- third and fourth order: trunc/GaussMom4.v (gauss_nd_lin3, gauss_nd_lin4), proofs/GIreal5.v ---- *)
+From GT Require Import GaussMom4 GIreal5.
+
+Theorem C03_wick_expectation_of_three_forms_is_the_integral D (mu : vecRF) (S : matRF) (f g h : aform R_fieldType) :
+  spd (mxf D D S) ->
+  is_gint D (fun x => (dot D f.1 x + f.2) * (dot D g.1 x + g.2) * (dot D h.1 x + h.2)
+                      * exp (lnN LR (cvf D mu) (mxf D D S) (cvf D x)))
+            (gE D mu S [:: f; g; h]).
+Proof. by move=> sS; exact: wick3_is_integral. Qed.
+Print Assumptions C03_wick_expectation_of_three_forms_is_the_integral.
+
+Theorem C03_wick_expectation_of_four_forms_is_the_integral D (mu : vecRF) (S : matRF) (f g h k : aform R_fieldType) :
+  spd (mxf D D S) ->
+  is_gint D (fun x => (dot D f.1 x + f.2) * (dot D g.1 x + g.2) * (dot D h.1 x + h.2) * (dot D k.1 x + k.2)
+                      * exp (lnN LR (cvf D mu) (mxf D D S) (cvf D x)))
+            (gE D mu S [:: f; g; h; k]).
+Proof. by move=> sS; exact: wick4_is_integral. Qed.
+Print Assumptions C03_wick_expectation_of_four_forms_is_the_integral.
+
+Theorem C03_xbxx_is_the_integral (p : measure LR) r (b : vecRF) i j :
+  pdf_ok p -> spd (Sg p r) -> (r < uR p)%N -> (i < uD p)%N -> (j < uD p)%N ->
+  is_gint (uD p) (fun x => x i * dot (uD p) b x * x j * exp (ueval p r x)) (E_xbxx (uD p) (getmu p r) (getS p r) b i j).
+Proof. by move=> H1 H2 H3 Hi Hj; exact: E_xbxx_is_integral. Qed.
+Print Assumptions C03_xbxx_is_the_integral.
+
+Theorem C03_cubic_outer_is_the_integral (p : measure LR) r (A : vecRF) (a : R) i j :
+  pdf_ok p -> spd (Sg p r) -> (r < uR p)%N -> (i < uD p)%N -> (j < uD p)%N ->
+  is_gint (uD p) (fun x => x i * (dot (uD p) A x + a) * x j * exp (ueval p r x))
+          (E_cubic_outer (uD p) (getmu p r) (getS p r) A a i j).
+Proof. by move=> H1 H2 H3 Hi Hj; exact: E_cubic_outer_is_integral. Qed.
+Print Assumptions C03_cubic_outer_is_the_integral.
+
+Theorem C03_cubic_inner_is_the_integral (p : measure LR) r L (A : matRF) (a : vecRF) (B : matRF) (b : vecRF) (C : matRF) (c : vecRF) k :
+  pdf_ok p -> spd (Sg p r) -> (r < uR p)%N ->
+  is_gint (uD p) (fun x => (mvec (uD p) A x k + a k) * sumn L (fun l => (mvec (uD p) B x l + b l) * (mvec (uD p) C x l + c l))
+                           * exp (ueval p r x))
+          (E_cubic_inner (uD p) (getmu p r) (getS p r) L A a B b C c k).
+Proof. by move=> H1 H2 H3; exact: E_cubic_inner_is_integral. Qed.
+Print Assumptions C03_cubic_inner_is_the_integral.
+
+Theorem C03_cubic_outer_general_is_the_integral (p : measure LR) r K (A : matRF) (a : vecRF) (B : matRF) (b : vecRF) (C : matRF) (c : vecRF) l :
+  pdf_ok p -> spd (Sg p r) -> (r < uR p)%N ->
+  is_gint (uD p) (fun x => sumn K (fun k => (mvec (uD p) A x k + a k) * (mvec (uD p) B x k + b k)) * (mvec (uD p) C x l + c l)
+                           * exp (ueval p r x))
+          (E_cubic_outer_general (uD p) (getmu p r) (getS p r) K A a B b C c l).
+Proof. by move=> H1 H2 H3; exact: E_cubic_outer_general_is_integral. Qed.
+Print Assumptions C03_cubic_outer_general_is_the_integral.
+
+Theorem C03_quartic_outer_is_the_integral (p : measure LR) r L (A : matRF) (a : vecRF) (B : matRF) (b : vecRF) (C : matRF) (c : vecRF)
+    (Dm : matRF) (d : vecRF) k m :
+  pdf_ok p -> spd (Sg p r) -> (r < uR p)%N ->
+  is_gint (uD p) (fun x => (mvec (uD p) A x k + a k) * sumn L (fun l => (mvec (uD p) B x l + b l) * (mvec (uD p) C x l + c l))
+                           * (mvec (uD p) Dm x m + d m) * exp (ueval p r x))
+          (E_quartic_outer (uD p) (getmu p r) (getS p r) L A a B b C c Dm d k m).
+Proof. by move=> H1 H2 H3; exact: E_quartic_outer_is_integral. Qed.
+Print Assumptions C03_quartic_outer_is_the_integral.
+
+Theorem C03_quartic_inner_is_the_integral (p : measure LR) r K L (A : matRF) (a : vecRF) (B : matRF) (b : vecRF) (C : matRF) (c : vecRF)
+    (Dm : matRF) (d : vecRF) :
+  pdf_ok p -> spd (Sg p r) -> (r < uR p)%N ->
+  is_gint (uD p) (fun x => sumn K (fun k => (mvec (uD p) A x k + a k) * (mvec (uD p) B x k + b k))
+                           * sumn L (fun l => (mvec (uD p) C x l + c l) * (mvec (uD p) Dm x l + d l)) * exp (ueval p r x))
+          (E_quartic_inner (uD p) (getmu p r) (getS p r) K L A a B b C c Dm d).
+Proof. by move=> H1 H2 H3; exact: E_quartic_inner_is_integral. Qed.
+Print Assumptions C03_quartic_inner_is_the_integral.
